@@ -13,13 +13,13 @@ package obfs
 //@ spec func kbyte(o, s, j) = hbyte(cat8(keyId(o), s[0], s[1], s[2], s[3], s[4], s[5], s[6], s[7]), j)
 
 //@ ghost var lkHeld Bool
-//@ hook call (*Mutex).Lock(m)
+//@ hook call (*Mutex).Lock(m) in (*salamanderObfuscator).Obfuscate | (*salamanderObfuscator).Deobfuscate | (*obfsPacketConn).ReadFrom | (*obfsPacketConn).WriteTo
 //@   update lkHeld = true
-//@ hook call (*Mutex).Unlock(m)
+//@ hook call (*Mutex).Unlock(m) in (*salamanderObfuscator).Obfuscate | (*salamanderObfuscator).Deobfuscate | (*obfsPacketConn).ReadFrom | (*obfsPacketConn).WriteTo
 //@   update lkHeld = false
-//@ guard call (*Mutex).Lock(m)
+//@ guard call (*Mutex).Lock(m) in (*salamanderObfuscator).Obfuscate | (*salamanderObfuscator).Deobfuscate | (*obfsPacketConn).ReadFrom | (*obfsPacketConn).WriteTo
 //@   requires !lkHeld
-//@ guard call (*Mutex).Unlock(m)
+//@ guard call (*Mutex).Unlock(m) in (*salamanderObfuscator).Obfuscate | (*salamanderObfuscator).Deobfuscate | (*obfsPacketConn).ReadFrom | (*obfsPacketConn).WriteTo
 //@   requires lkHeld
 //@ guard call keyLocked(o2, salt) in (*salamanderObfuscator).Obfuscate | (*salamanderObfuscator).Deobfuscate
 //@   props C13
